@@ -1130,14 +1130,61 @@ func runImpl(ctor string, plat *c19Plat, user []c19Opt) (out c19Out) {
 			out.pmsg = fmt.Sprint(r)
 		}
 	}()
-	var opts []util.Option
-	for _, o := range user {
+	return runImplWith(ctor, plat, c19BuildOpts(user, 0))
+}
+
+// c19Probe is handed to a tagged option to learn which option sits in a slot of the caller's slice.
+type c19Probe struct{ id int }
+
+// c19BuildOpts builds the caller's option slice: every option is wrapped so that it can be
+// identified later (function values cannot be compared), with `spare` unused capacity.
+func c19BuildOpts(user []c19Opt, spare int) []util.Option {
+	opts := make([]util.Option, 0, len(user)+spare)
+	for i, o := range user {
 		ro, err := realOption(o)
 		if err != nil {
 			panic("harness: " + err.Error())
 		}
-		opts = append(opts, ro)
+		id := i
+		opts = append(opts, func(x interface{}) error {
+			if p, ok := x.(*c19Probe); ok {
+				p.id = id
+				return util.ErrIgnoredOption
+			}
+			return ro(x)
+		})
 	}
+	return opts
+}
+
+// c19SliceIntact: is the caller's slice still the options it put there, in order?
+func c19SliceIntact(opts []util.Option, n int) (bool, string) {
+	if len(opts) != n {
+		return false, fmt.Sprintf("length %d -> %d", n, len(opts))
+	}
+	var ids []string
+	ok := true
+	for i, o := range opts {
+		p := &c19Probe{id: -1}
+		if o != nil {
+			_ = o(p)
+		}
+		ids = append(ids, strconv.Itoa(p.id))
+		if p.id != i {
+			ok = false
+		}
+	}
+	return ok, "slots now hold options #[" + strings.Join(ids, " ") + "]"
+}
+
+// runImplWith runs one constructor on the caller's (possibly shared) option slice.
+func runImplWith(ctor string, plat *c19Plat, opts []util.Option) (out c19Out) {
+	defer func() {
+		if r := recover(); r != nil {
+			out.panicked = true
+			out.pmsg = fmt.Sprint(r)
+		}
+	}()
 	out.fields = c19Fields{}
 	switch {
 	case plat != nil:
@@ -1303,6 +1350,61 @@ type c19Case struct {
 	plat  *c19Plat
 	user  []c19Opt
 	perm  []int // shuffle oracle: permutation applied to user
+}
+
+// c19Reuse: one caller-owned option slice handed to several constructions in a row.
+type c19Step struct {
+	ctor string
+	plat *c19Plat
+}
+
+type c19Reuse struct {
+	user  []c19Opt
+	spare int
+	steps []c19Step
+}
+
+// line: `c19 reuse <spare> <ctor@plat+ctor@plat…> <opts>`
+func (rc *c19Reuse) line() string {
+	var st []string
+	for _, s := range rc.steps {
+		pl := "-"
+		if s.plat != nil {
+			pl = s.plat.encode()
+		}
+		st = append(st, s.ctor+"@"+pl)
+	}
+	return fmt.Sprintf("c19 reuse %d %s %s", rc.spare, strings.Join(st, "+"), encodeOpts(rc.user))
+}
+
+func decodeReuse(line string) (c19Reuse, bool) {
+	f := strings.Fields(line)
+	rc := c19Reuse{}
+	if len(f) != 5 || f[1] != "reuse" {
+		return rc, false
+	}
+	rc.spare, _ = strconv.Atoi(f[2])
+	for _, s := range strings.Split(f[3], "+") {
+		i := strings.Index(s, "@")
+		if i < 0 {
+			return rc, false
+		}
+		st := c19Step{ctor: s[:i]}
+		if s[i+1:] != "-" {
+			p, err := decodePlat(s[i+1:])
+			if err != nil {
+				return rc, false
+			}
+			st.plat = p
+		}
+		rc.steps = append(rc.steps, st)
+	}
+	u, err := decodeOpts(f[4])
+	if err != nil {
+		return rc, false
+	}
+	rc.user = u
+	return rc, true
 }
 
 func (cs *c19Case) line() string {
@@ -1510,6 +1612,7 @@ func runC19(c *ctx) {
 	}
 	ans := c.ask(lines)
 	unknownNoted := map[string]bool{}
+	reuseShrunk := map[string]bool{}
 	eval := func(cs *c19Case, a string, compat bool, res *vlib.Result, i int) {
 		line := cs.line()
 		res.Count("class:" + cs.class)
@@ -1710,6 +1813,166 @@ func runC19(c *ctx) {
 		}
 		eval(cs, a, compat, res, i)
 	}
+	// (5) one caller-owned option slice handed to several constructions in a row: every driver must
+	// equal the model's (pure) construction from the same list, and the caller's slice must be
+	// element-wise unchanged afterwards
+	evalReuse := func(rc *c19Reuse, answers []string, res *vlib.Result) {
+		line := rc.line()
+		opts := c19BuildOpts(rc.user, rc.spare)
+		sliceReported := false
+		for k, st := range rc.steps {
+			f := strings.Fields(answers[k])
+			if len(f) != 3 {
+				res.Fail("machinery", line, "driver answered "+answers[k], "driver")
+				return
+			}
+			dom := f[0] == "dom=1"
+			mF, mErr, mPanic, ok := parseModelRes(f[1][6:])
+			if !ok {
+				res.Fail("machinery", line, "driver answered "+answers[k][:min(len(answers[k]), 200)], "driver")
+				return
+			}
+			impl := runImplWith(st.ctor, st.plat, opts)
+			kind := "correspondence"
+			if dom {
+				kind = "oracle"
+			}
+			where := fmt.Sprintf("construction %d of %d (%s, platform-options=%v) from one shared slice of %v (spare capacity %d)",
+				k+1, len(rc.steps), st.ctor, platOptNames(st.plat), optNames(rc.user), rc.spare)
+			switch {
+			case impl.panicked != mPanic:
+				res.Fail(kind, line, fmt.Sprintf("%s: panicked=%v (%s), model panic=%v", where, impl.panicked, impl.pmsg, mPanic), "reuse:panic")
+				return
+			case impl.panicked:
+			case impl.err != mErr:
+				res.Fail(kind, line, fmt.Sprintf("%s: error class %q, model %q", where, impl.err, mErr), "reuse:wrong-error:"+impl.err+"-vs-"+mErr)
+				return
+			case impl.err == "":
+				if fk, d := diffFields(st.ctor, impl.fields, mF, baseline[st.ctor]); fk != "" {
+					res.Fail(kind, line, where+": "+d, "reuse:wrong-field:"+fk)
+					return
+				}
+			}
+			if ok, how := c19SliceIntact(opts, len(rc.user)); !ok && !sliceReported {
+				// keep going: the next construction shows what the damaged slice does to a driver
+				sliceReported = true
+				res.Fail("oracle", line, where+": the caller's option slice was modified: "+how, "reuse:caller-slice-modified")
+			}
+		}
+	}
+	askReuse := func(rc *c19Reuse) []string {
+		var ls []string
+		for _, st := range rc.steps {
+			cs := c19Case{ctor: st.ctor, plat: st.plat, user: rc.user}
+			ls = append(ls, cs.leanLine())
+		}
+		return c.ask(ls)
+	}
+	var reuses []c19Reuse
+	if c.replay != "" {
+		if rc, ok := decodeReuse(c.replay); ok {
+			reuses = append(reuses, rc)
+		}
+	} else {
+		for i := 0; i < c.n(1200, 60000); i++ {
+			var u []c19Opt
+			n := r.Range(1, 9)
+			for j := 0; j < n; j++ {
+				u = append(u, genOpt(r, c19DriverOpts[r.Intn(len(c19DriverOpts))], false))
+			}
+			// driver-level and additive options, where a damaged slice shows
+			for _, name := range []string{"WithTransportType", "WithFailedWhenContains", "WithLogger", "WithOnOpen", "WithSystemTransportOpenArgs"} {
+				if r.Chance(1, 2) {
+					at := r.Intn(len(u) + 1)
+					u = append(u[:at:at], append([]c19Opt{genOpt(r, name, false)}, u[at:]...)...)
+				}
+			}
+			if r.Chance(1, 2) {
+				u = append(u, genOpt(r, "WithSystemTransportOpenArgs", false))
+			}
+			at := r.Intn(len(u) + 1)
+			u = append(u[:at:at], append(netPrivs(), u[at:]...)...)
+			rc := c19Reuse{user: u, spare: c19Pick2(r, 0, 4)}
+			for k := r.Range(2, 4); k > 0; k-- {
+				st := c19Step{ctor: r.Pick([]string{"generic", "network", "netconf", "generic"})}
+				if r.Chance(1, 4) {
+					st.ctor = r.Pick([]string{"generic", "network"})
+					p := &c19Plat{driverType: st.ctor, ddp: "exec", privs: genOpt(r, "WithPrivilegeLevels", false).args[0]}
+					if r.Bool() {
+						p.fwc = []string{r.Pick(c19Words[:5])}
+					}
+					for j := r.Intn(3); j > 0 && len(platNames) > 0; j-- {
+						nm := platNames[r.Intn(len(platNames))]
+						p.opts = append(p.opts, genPlatOpt(r, nm, platDoc[nm], false))
+					}
+					st.plat = p
+				}
+				rc.steps = append(rc.steps, st)
+			}
+			reuses = append(reuses, rc)
+		}
+	}
+	if len(reuses) > 0 {
+		var ls []string
+		for i := range reuses {
+			for _, st := range reuses[i].steps {
+				cs := c19Case{ctor: st.ctor, plat: st.plat, user: reuses[i].user}
+				ls = append(ls, cs.leanLine())
+			}
+		}
+		ra := c.ask(ls)
+		k := 0
+		for i := range reuses {
+			rc := &reuses[i]
+			res.Count("class:reuse")
+			res.Count(fmt.Sprintf("reuse-steps:%d", len(rc.steps)))
+			res.Case(rc.line(), true)
+			before := len(res.Findings)
+			evalReuse(rc, ra[k:k+len(rc.steps)], res)
+			k += len(rc.steps)
+			// shrink the first failure of each reuse signature: fewer constructions, fewer options
+			for fi := before; fi < len(res.Findings) && c.replay == ""; fi++ {
+				fd := &res.Findings[fi]
+				if !reuseShrunk[fd.Signature] {
+					reuseShrunk[fd.Signature] = true
+					cur := *rc
+					same := func(cand *c19Reuse) (string, bool) {
+						scratch := vlib.NewResult("C19")
+						evalReuse(cand, askReuse(cand), scratch)
+						for _, g := range scratch.Findings {
+							if g.Signature == fd.Signature {
+								return g.Detail, true
+							}
+						}
+						return "", false
+					}
+					detail, budget := fd.Detail, 60
+					for changed := true; changed && budget > 0; {
+						changed = false
+						for j := 0; j < len(cur.steps) && len(cur.steps) > 2 && budget > 0; j++ {
+							cand := cur
+							cand.steps = append(append([]c19Step{}, cur.steps[:j]...), cur.steps[j+1:]...)
+							budget--
+							if d, ok := same(&cand); ok {
+								cur, detail, changed = cand, d, true
+								j--
+							}
+						}
+						for j := 0; j < len(cur.user) && budget > 0; j++ {
+							cand := cur
+							cand.user = append(append([]c19Opt{}, cur.user[:j]...), cur.user[j+1:]...)
+							budget--
+							if d, ok := same(&cand); ok {
+								cur, detail, changed = cand, d, true
+								j--
+							}
+						}
+					}
+					fd.Case, fd.Detail = cur.line(), detail
+				}
+			}
+		}
+	}
 	// observations outside the property's quantifier (reported, never gating)
 	if c.replay == "" {
 		for _, pr := range []struct {
@@ -1804,7 +2067,7 @@ func runC19(c *ctx) {
 			fd.Case, fd.Detail = cur.line(), detail
 		}
 	}
-	res.TracesVsImpl = len(cases)
+	res.TracesVsImpl = len(cases) + len(reuses)
 }
 
 func c19Pick2(r *vlib.Rng, a, b int) int {
